@@ -515,7 +515,9 @@ class UTPM(Ring, RawAlgorithmsMixIn):
             self.data[0,...] -= rhs
         else:
             self_data, rhs_data = UTPM._broadcast_arrays(self.data, rhs.data)
-            self_data[...] -= rhs_data[...]
+            # like __iadd__: a complex right hand side (the adjoint of a complex intermediate that is
+            # accumulated into the adjoint of a real operand) contributes its real part
+            numpy.subtract(self_data, rhs_data, out=self_data, casting="unsafe")
         return self
 
     def __imul__(self,rhs):
